@@ -153,6 +153,8 @@ def do_op(op: tuple, out: list) -> None:
             loc = dict(ns)
             exec(compile(BUILD_SRC[kind], f"<c16-{kind}>", "exec"), loc)  # noqa: S102
             out.append(("built", loc[DAG_NAME[kind]]))
+        elif kind == "call_f":
+            out.append(("ok", repr(FRESH["shared_f"](op[1]))))
         elif kind == "call_s":
             out.append(("ok", repr(ns["shared_s"](op[1]))))
         elif kind == "bare_method":
@@ -208,6 +210,13 @@ SCENARIOS: Dict[str, List[List[tuple]]] = {
     "call_s||call_s+rendezvous": [[("call_s", 1)], [("call_s", 2)]],
     "call_s||call_s": [[("call_s", 1)], [("call_s", 2)]],
 }
+FRESH_SRC = '''
+@dag
+def shared_f(x):
+    return use(prep(), x)
+'''
+FRESH: Dict[str, Any] = {}  # DAG objects rebuilt before every execution of a scenario (their setup node has never run)
+SCENARIOS["first_call||first_call"] = [[("call_f", 1)], [("call_f", 2)]]  # both calls find the setup node still to be executed
 RENDEZVOUS = {"call_s||call_s+rendezvous": 2}
 PRE_SETUP = {"call_s||call_s+rendezvous", "call_s||call_s"}
 BARE_BEHAVIOURS = ["ignore", "warning", "error"]
@@ -235,6 +244,10 @@ def run_scenario(ops: List[List[tuple]], prefix, line_mode: bool, rv: int = 0, p
     outs: List[list] = [[] for _ in ops]
     if pre_setup:
         lib()["shared_s"].setup()
+    if any(op[0] == "call_f" for th in ops for op in th):
+        loc = dict(lib())
+        exec(compile(FRESH_SRC, "<c16-fresh>", "exec"), loc)  # noqa: S102
+        FRESH["shared_f"] = loc["shared_f"]
 
     def body(i):
         def f():
